@@ -39,7 +39,7 @@ MODULES = [
 SELF_MUTATORS_BY_NAME = {'__init__', '__post_init__', '__setitem__', '__delitem__', '__enter__', '__exit__',
                          '__iadd__', '__set_name__', 'fset', '__setattr__'}
 SELF_MUTATORS_QUAL = (
-    'SqwBuilder.add_', 'SqwBuilder.register_', 'SqwBuilder._', 'SqwBuilder.create',
+    'SqwBuilder.add_', 'SqwBuilder.register_',
     'Block.add', 'Block.comment.fset', 'Loop.comment.fset', 'Chunk.comment.fset', 'Block.name.fset',
     'LowLevelSqw.', 'Sqw.', 'Serializer.', 'ByteReader', '_PixWrap.', '_DndPlaceholder.',
     'AcceptanceDiagram', 'Subframe.__init__', 'Frame.__init__',
